@@ -293,12 +293,29 @@ Fixpoint pl_eqb (a b : list (Z * Z)) : bool := match a, b with [], [] => true | 
 KINDS = ['ent', 'solid', 'group', 'vis']
 
 
+def gc_begin() -> None:
+    """Destructor timing is part of the oracle: a FULL collection runs at every step boundary of a history, so an object
+    that is only kept alive by a reference cycle releases its ID at a defined time (objects freed by reference counting
+    release theirs at once).  To keep full collections cheap, everything that exists when a history starts is moved to
+    the permanent generation first; `gc_end` undoes that."""
+    gc.collect()
+    gc.freeze()
+
+
+def gc_step() -> None:
+    gc.collect()
+
+
+def gc_end() -> None:
+    gc.unfreeze()
+
+
 def scan_map(vmf) -> dict[str, list[int]]:
     """All IDs of objects reachable from the map, per kind."""
     ents = [vmf.spawn, *vmf.entities]
     solids = list(vmf.brushes) + [s for e in vmf.entities for s in e.solids]
     out = {
-        'ent': [e.id for e in vmf.entities],
+        'ent': [e.id for e in ents],       # the worldspawn is an entity too: its "id" is exported next to the others
         'solid': [s.id for s in solids],
         'face': [f.id for s in solids for f in s.sides],
         'group': [g.id for g in vmf.groups.values()],
@@ -337,8 +354,17 @@ def run_history(hist: list[tuple], record_release=None):
     """Execute a lifecycle history on a real VMF. Returns (list of per-step id scans, objects, effective events)."""
     from srctools.vmf import VMF, Entity, Solid, Side, EntityGroup, VisGroup
     from srctools.math import Vec
-    vmf = VMF()
-    vmf2 = VMF()        # destination of cross-map copies
+    from srctools.keyvalues import Keyvalues
+    # ('parse', 0|1, text): the map starts as VMF.parse(text) instead of VMF() -- whatever the position of the event in the list
+    texts = {ev[1]: ev[2] for ev in hist if ev[0] == 'parse'}
+    steps = []
+    gc_begin()
+    try:
+        vmf = VMF.parse(Keyvalues.parse(texts[0])) if 0 in texts else VMF()
+        vmf2 = VMF.parse(Keyvalues.parse(texts[1])) if 1 in texts else VMF()        # destination of cross-map copies
+    except Exception as e:
+        return [{'error': f'VMF.parse: {type(e).__name__}: {e}'}], [], None
+    gc_step()
     for _ in range(3):  # pre-populate so that ID ranges of the two maps overlap
         vmf2.add_brush(vmf2.make_prism(Vec(0, 0, 0), Vec(8, 8, 8)).solid)
         vmf2.create_ent('info_target')
@@ -347,11 +373,17 @@ def run_history(hist: list[tuple], record_release=None):
         vmf2.groups[g2.id] = g2
         vmf2.vis_tree.append(VisGroup(vmf2, 'own'))
     objs: list = []     # [kind, obj or None, in_map]
-    steps = []
     for ev in hist:
         op = ev[0]
         try:
-            if op == 'create':
+            if op == 'parse':
+                if ev[1] == 0:      # the parsed objects of the first map take part in the history like created ones
+                    for b in vmf.brushes:
+                        objs.append(['solid', b, True])
+                    for e in vmf.entities:
+                        objs.append(['node' if e['classname'] == 'info_node' else 'brushent' if e.solids else 'ent', e, True])
+                    b = e = None
+            elif op == 'create':
                 _, kind, desired = ev
                 if kind == 'ent':
                     o = Entity(vmf, {'classname': 'info_target'}, ent_id=desired)
@@ -453,6 +485,7 @@ def run_history(hist: list[tuple], record_release=None):
         except Exception as e:   # an exception in the public API during a legal history is itself reported
             steps.append({'error': f'{type(e).__name__}: {e}'})
             break
+        gc_step()
         sc = scan_map(vmf)
         sc.update({'map2:' + k: v for k, v in scan_map(vmf2).items()})
         steps.append(sc)
@@ -461,9 +494,18 @@ def run_history(hist: list[tuple], record_release=None):
 
 def gen_history(rng: random.Random, n: int, kinds) -> list[tuple]:
     h = []
+    # parse-then-allocate: in a quarter of the histories the first map (sometimes the second one too) starts as a parsed
+    # document with small, colliding, missing IDs; the world block has id 1 in most of them, as Hammer writes it
+    if rng.random() < 0.25:
+        h.append(('parse', 0, gen_vmf_doc(rng, small=True)[0]))
+        if rng.random() < 0.3:
+            h.append(('parse', 1, gen_vmf_doc(rng, small=True)[0]))
+    n_parse = len(h)
     for _ in range(n):
         r = rng.random()
-        if r < 0.40 or not h:
+        if r < 0.40 and n_parse and rng.random() < 0.5:
+            h.append(('create', rng.choice(kinds), -1))     # a plain allocation right after the parse
+        elif r < 0.40 or not h:
             h.append(('create', rng.choice(kinds), rng.choice([-1, -1, 0, -4, 1, 2, 2, 3, 5])))
         elif r < 0.46:
             h.append(('copy', rng.randint(0, 9)))
@@ -484,7 +526,11 @@ def gen_history(rng: random.Random, n: int, kinds) -> list[tuple]:
     return h
 
 
+HAMMER_DOC = ('versioninfo\n{\n"formatversion" "100"\n}\nworld\n{\n"id" "1"\n"classname" "worldspawn"\n}\n'
+              'entity\n{\n"id" "2"\n"classname" "info_target"\n}\n')
 CORPUS_HIST = [
+    [('parse', 0, HAMMER_DOC), ('create', 'ent', -1), ('copy', 0), ('create', 'brushent', -1)],
+    [('parse', 0, HAMMER_DOC), ('parse', 1, HAMMER_DOC), ('collapse', 0, 1), ('xcopy', 0), ('create', 'node', -1)],
     [('create', 'ent', -1), ('remove', 0), ('create', 'ent', -1), ('gc', 0), ('create', 'ent', -1)],
     [('create', 'solid', -1), ('remove', 0), ('create', 'solid', -1), ('gc', 0), ('create', 'solid', -1)],
     [('create', 'node', 3), ('create', 'node', 3), ('create', 'node', 3)],
@@ -507,6 +553,8 @@ def classify(kind: str, what: str, hist) -> str:
         if what == 'nonpositive':
             return 'node-id-nonpositive'
         return 'node-id-duplicate'
+    if 'parse' in ops:      # the map was built by VMF.parse: parse-then-allocate
+        return f'{kind}-id-{what}-after-parse'
     if 'remove' in ops and 'gc' in ops and kind in ('ent',):
         return f'{kind}-id-duplicate-after-remove-and-gc' if what == 'duplicate' else f'{kind}-id-{what}'
     if 'remove' in ops and kind in ('ent',) and what == 'duplicate':
@@ -525,6 +573,15 @@ def shrink(hist, pred):
                 cur = cand
                 changed = True
                 break
+        if changed:
+            continue
+        for i, e in enumerate(cur):     # a parsed starting map: try the smallest Hammer-like document instead
+            if e[0] == 'parse' and e[2] != HAMMER_DOC:
+                cand = cur[:i] + [(e[0], e[1], HAMMER_DOC)] + cur[i + 1:]
+                if pred(cand):
+                    cur = cand
+                    changed = True
+                    break
     return cur
 
 
@@ -567,7 +624,8 @@ def search_lifecycle(ck: Ck) -> None:
         small = shrink(hist, same)
         if key not in found or len(small) < len(found[key][0]):
             found[key] = (small, first_problem(small))
-    ck.sample({'lifecycle_history': CORPUS_HIST[4], 'id_scan_after_last_step': run_history(CORPUS_HIST[4])[0][-1]})
+    ck.sample({'lifecycle_history': CORPUS_HIST[6], 'id_scan_after_last_step': run_history(CORPUS_HIST[6])[0][-1]})
+    gc_end()
     for key, (hist, p) in found.items():
         ck.violation(key, f'{p[0]} IDs {p[1]}: {p[2]} after step {p[3]} of history', {'history': hist, 'problem': p,
                      'how': 'checks.c08.run_history(history) then scan_map() after every step'})
@@ -664,7 +722,7 @@ Definition wfull (k : kind) (es : list wev) : list Z :=
 Definition wobs3 (w : wworld) : list Z := wobs w ++ [wprobe w 0%nat; wprobe w 1%nat; wprobe w 2%nat].
 Definition tfull (es : list tev) : list Z * list Z * list Z :=
   let w := trun (release_on_remove KEnt) (release_on_remove KSolid) (release_on_remove KFace)
-                (copy_to_dest KEnt) (copy_to_dest KSolid) (copy_to_dest KFace) es in
+                (copy_to_dest KEnt) (copy_to_dest KSolid) (copy_to_dest KFace) parse_program es in
   let lists m := List.map Z.of_nat (tlisted_of w m false) ++ [-1] ++ List.map Z.of_nat (tlisted_of w m true) ++ [-2] in
   (wobs3 (tE w), wobs3 (tS w), wobs3 (tF w) ++ [-5] ++ lists 0%nat ++ lists 1%nat ++ lists 2%nat).
 '''
@@ -694,34 +752,225 @@ def _zs(d: int) -> str:
     return f'({d})' if d < 0 else str(d)
 
 
-def gen_world_case(rng: random.Random, n_ev: int):
+_PDOC_ENT_IDS = [None, None, 0, 1, 1, 2, 2, 3, 5]
+_PDOC_IDS = [None, -1, 0, 1, 1, 2, 2, 3, 4]
+
+
+def gen_parse_doc(rng: random.Random):
+    """A small VMF document for the nested model's TParse: (text, doc) with doc = {'world': desired ID of the world block,
+    'brushes': [(hidden, desired, [desired face IDs])], 'ents': [(hidden, desired, [(desired, [faces])])]}; a missing id is
+    desired -1.  The world block has id 1 in half of the documents (what Hammer writes); IDs are small and collide."""
+    def des(d):
+        return -1 if d is None else d
+
+    def idline(d):
+        return '' if d is None else f'"id" "{d}"\n'
+
+    def solid():
+        sd = rng.choice(_PDOC_IDS)
+        fds = [rng.choice(_PDOC_IDS) for _ in range(rng.choice([1, 2]))]
+        txt = 'solid\n{\n' + idline(sd) + ''.join('side\n{\n' + idline(fd) + '"plane" "(0 0 0) (1 0 0) (0 1 0)"\n"material" "A"\n}\n' for fd in fds) + '}\n'
+        return txt, (des(sd), [des(fd) for fd in fds])
+
+    wd = 1 if rng.random() < 0.5 else rng.choice(_PDOC_ENT_IDS)
+    doc = {'world': des(wd), 'brushes': [], 'ents': []}
+    world = 'world\n{\n' + idline(wd) + '"classname" "worldspawn"\n'
+    for _ in range(rng.choice([0, 1, 2])):
+        txt, sd = solid()
+        hidden = rng.random() < 0.25
+        world += 'hidden\n{\n' + txt + '}\n' if hidden else txt
+        doc['brushes'].append((hidden, sd[0], sd[1]))
+    out = ['versioninfo\n{\n"formatversion" "100"\n}\n', world + '}\n']
+    for _ in range(rng.choice([0, 1, 2, 3])):
+        ed = rng.choice(_PDOC_ENT_IDS)
+        txt = 'entity\n{\n' + idline(ed)
+        sds = []
+        if rng.random() < 0.4:
+            txt += '"classname" "func_detail"\n'
+            for _ in range(rng.choice([1, 2])):
+                t2, sd = solid()
+                txt += t2
+                sds.append(sd)
+        else:
+            txt += '"classname" "info_target"\n'
+        txt += '}\n'
+        hidden = rng.random() < 0.2
+        out.append('hidden\n{\n' + txt + '}\n' if hidden else txt)
+        doc['ents'].append((hidden, des(ed), sds))
+    return ''.join(out), doc
+
+
+def coq_pdoc(doc) -> str:
+    def b(x):
+        return 'true' if x else 'false'
+
+    def sd(d, fds):
+        return f'({_zs(d)}, {coq_list(_zs(x) for x in fds)})'
+    return ('{| pd_world := %s; pd_brushes := %s; pd_ents := %s |}' % (
+        _zs(doc['world']), coq_list(f'({b(h)}, {sd(d, fds)})' for h, d, fds in doc['brushes']),
+        coq_list(f'({b(h)}, ({_zs(d)}, {coq_list(sd(*x) for x in sds)}))' for h, d, sds in doc['ents'])))
+
+
+def observed_parse(text: str):
+    """VMF.parse with every Entity / Solid / Side constructed on the way recorded in construction order.  Entities are held
+    weakly, with their ID and with the indexes of the earlier entities whose destructor had run by then: the time at which
+    the placeholder worldspawn dies is part of what is compared."""
+    import weakref
+    import srctools.vmf as V
+    from srctools.keyvalues import Keyvalues
+    log: dict = {'ent': [], 'solid': [], 'face': []}
+    orig = {c: c.__init__ for c in (V.Entity, V.Solid, V.Side)}
+
+    def ent_init(self, *a, **k):
+        orig[V.Entity](self, *a, **k)
+        log['ent'].append((weakref.ref(self), self.id, [i for i, (r, _, _) in enumerate(log['ent']) if r() is None]))
+
+    def solid_init(self, *a, **k):
+        orig[V.Solid](self, *a, **k)
+        log['solid'].append(self)
+
+    def side_init(self, *a, **k):
+        orig[V.Side](self, *a, **k)
+        log['face'].append(self)
+    V.Entity.__init__, V.Solid.__init__, V.Side.__init__ = ent_init, solid_init, side_init
+    try:
+        vmf = V.VMF.parse(Keyvalues.parse(text))
+    finally:
+        for c, f in orig.items():
+            c.__init__ = f
+    gc_step()
+    return vmf, log
+
+
+def parse_mirror(prog: list[str], doc):
+    """The order in which the steps of VMF.parse (read from the source: side['parse_program']) construct and destroy objects,
+    as flat per-kind event lists for SM/IdWorld.v -- the bookkeeping the harness needs to know which Python object is which
+    object of the models.  -> [(step, ...)] with ('ent', desired, role) / ('solid', desired) / ('face', desired) / ('drop',)."""
+    out = []
+    for st in prog:
+        if st == 'GPPlaceholder':
+            out.append(('ent', -1, 'placeholder'))
+        elif st == 'GPWorld':
+            for h, d, fds in doc['brushes']:
+                out += [('face', fd) for fd in fds] + [('solid', d), ('top-brush', h, len(fds))]
+            out.append(('ent', doc['world'], 'world'))
+        elif st == 'GPDropPlaceholder':
+            out.append(('drop',))
+        elif st == 'GPEntities':
+            for h, d, sds in doc['ents']:
+                for sd, fds in sds:
+                    out += [('face', fd) for fd in fds] + [('solid', sd)]
+                out.append(('ent', d, 'entity', h, [len(fds) for _, fds in sds]))
+        elif st == 'GPReleasePlaceholder':
+            out.append(('release',))
+    return out
+
+
+def gen_world_case(rng: random.Random, n_ev: int, parse_prog: list[str] | None = None):
     """A random history over three real maps with point entities, brush entities and world brushes.
 
     Returns ({kind: [event strings]}, {kind: expected observation list}, description, per-map ID scans).  Every
     nested object gets its own events in the stream of its kind, in the order the implementation constructs them."""
     from srctools.vmf import VMF, Entity, Solid, Side, EntityGroup, VisGroup
     from srctools.math import Vec
-    maps = [VMF(), VMF(), VMF()]
+    maps: list = []
     ev: dict = {k: [] for k in WORLD_KINDS}
     tr: dict[str, list[_Tracked]] = {k: [] for k in WORLD_KINDS}
     face_dels: list[int] = []             # face IDs released by Side.__del__ (in whichever map)
     tev: list[str] = []                   # the same history as bundled events on top-level objects (SM/IdNest.v)
     nest_ok = True
     nest_flag: list[str] = []
-    for m, v in enumerate(maps):          # the constructor's worldspawn takes an entity ID in every map
-        ev['KEnt'].append(f'WCreate {m}%nat (-1)')
-        tev.append(f'TCreateSpawn {m}%nat')            # top-level objects 0..2 of the nested model
-        tr['KEnt'].append(_Tracked(v.spawn, m))
-
+    # top-level objects: kind, obj, ent index or None, [(solid index, [face indexes])], home, inmap.  The worldspawns (the
+    # constructor's, a parsed one, the placeholder a parse throws away) are top-level objects no event picks: obj = None.
+    tops: list[dict] = []
+    desc: list[tuple] = []
+    timing: list[tuple] = []              # per parsed map: (observed, expected) time of the placeholder's destructor
+    for m in range(3):
+        if parse_prog is None or rng.random() >= 0.4:
+            # the constructor's worldspawn takes an entity ID
+            v = VMF()
+            maps.append(v)
+            ev['KEnt'].append(f'WCreate {m}%nat (-1)')
+            tev.append(f'TCreateSpawn {m}%nat')
+            tr['KEnt'].append(_Tracked(v.spawn, m))
+            tops.append({'kind': 'spawn', 'obj': None, 'ent': len(tr['KEnt']) - 1, 'solids': [], 'home': m, 'inmap': False})
+            continue
+        # the map starts as a parsed document (round 4): the model's TParse runs the program read from VMF.parse
+        text, doc = gen_parse_doc(rng)
+        v, log = observed_parse(text)
+        maps.append(v)
+        desc.append(('parse', m, text))
+        tev.append(f'TParse {m}%nat {coq_pdoc(doc)}')
+        e0, s0, f0 = len(tr['KEnt']), len(tr['KSolid']), len(tr['KFace'])
+        n_e = n_s = n_f = 0
+        placeholder = None
+        roles = {}
+        for st in parse_mirror(parse_prog, doc):
+            if st[0] == 'ent':
+                ev['KEnt'].append(f'WCreate {m}%nat {_zs(st[1])}')
+                roles[st[2]] = n_e
+                if st[2] == 'placeholder':
+                    placeholder = e0 + n_e
+                    tops.append({'kind': 'spawn', 'obj': None, 'ent': e0 + n_e, 'solids': [], 'home': m, 'inmap': False})
+                elif st[2] == 'world':
+                    tops.append({'kind': 'spawn', 'obj': None, 'ent': e0 + n_e, 'solids': [], 'home': m, 'inmap': False})
+                else:
+                    parts, k_s, k_f = [], n_s - len(st[4]), n_f - sum(st[4])
+                    for nf in st[4]:
+                        parts.append((s0 + k_s, [f0 + k_f + j for j in range(nf)]))
+                        k_s, k_f = k_s + 1, k_f + nf
+                    tops.append({'kind': 'ent', 'obj': ('ent', n_e), 'ent': e0 + n_e, 'solids': parts, 'home': m, 'inmap': True})
+                n_e += 1
+            elif st[0] == 'solid':
+                ev['KSolid'].append(f'WCreate {m}%nat {_zs(st[1])}')
+                n_s += 1
+            elif st[0] == 'face':
+                ev['KFace'].append(f'WCreate {m}%nat {_zs(st[1])}')
+                n_f += 1
+            elif st[0] == 'top-brush':
+                tops.append({'kind': 'solid', 'obj': ('solid', n_s - 1), 'ent': None,
+                             'solids': [(s0 + n_s - 1, [f0 + n_f - st[2] + j for j in range(st[2])])], 'home': m, 'inmap': True})
+            elif st[0] == 'drop' and placeholder is not None:
+                ev['KEnt'].append(f'WDestroy {placeholder}%nat')
+        # which Python object is which: construction order, as observed
+        if len(log['ent']) != n_e or len(log['solid']) != n_s or len(log['face']) != n_f:
+            nest_flag.append(f'VMF.parse constructed {len(log["ent"])}/{len(log["solid"])}/{len(log["face"])} entities/brushes/faces, '
+                             f'the program read from the source says {n_e}/{n_s}/{n_f}')
+        for i, (ref, oid, dead) in enumerate(log['ent']):
+            o = ref()
+            if o is not None:
+                tr['KEnt'].append(_Tracked(o, m))
+            else:
+                t = _Tracked.__new__(_Tracked)
+                t.ref, t.id, t.alive, t.inmap, t.home, t.wr = None, oid, False, False, m, None
+                tr['KEnt'].append(t)
+        for o in log['solid']:
+            tr['KSolid'].append(_Tracked(o, m))
+        for o in log['face']:
+            tr['KFace'].append(_Tracked(o, m))
+        for t in tops:
+            if isinstance(t['obj'], tuple):
+                kind_, k_ = t['obj']
+                lst = log['ent'] if kind_ == 'ent' else log['solid']
+                t['obj'] = (lst[k_][0]() if kind_ == 'ent' else lst[k_]) if k_ < len(lst) else None
+        # the time of the placeholder's destructor, observed through weak references, against the program
+        if 'placeholder' in roles and 'world' in roles and len(log['ent']) == n_e:
+            p, wi = roles['placeholder'], roles['world']
+            first_ent = next((roles_i for roles_i in range(n_e) if roles_i not in (p, wi)), None)
+            obs = (p in log['ent'][wi][2], None if first_ent is None else p in log['ent'][first_ent][2], log['ent'][p][0]() is None)
+            prog = [x for x in parse_prog if x != 'GPReleasePlaceholder']
+            di = prog.index('GPDropPlaceholder') if 'GPDropPlaceholder' in prog else len(prog)
+            exp_t = (di < prog.index('GPWorld'), None if first_ent is None else di < prog.index('GPEntities'), 'GPDropPlaceholder' in prog)
+            timing.append((obs, exp_t, text))
+        del log
+        o = t = lst = ref = None        # no stray reference may keep a parsed object alive
+    for v in maps:
         def spy(e, orig=v.face_id.discard):
             import sys
             if sys._getframe(1).f_code.co_name == '__del__':
                 face_dels.append(e)
             return orig(e)
         v.face_id.discard = spy
-    # top-level objects: kind, obj, ent index or None, [(solid index, [face indexes])], home, inmap
-    tops: list[dict] = []
-    desc: list[tuple] = []
 
     def new_solid(m, d, fds):
         sides = []
@@ -880,7 +1129,7 @@ def gen_world_case(rng: random.Random, n_ev: int):
         srcs = [next((o for o in maps[s].brushes if o.id == back_b.get(c.id)), None) for c in new_b] + \
                [next((o for o in maps[s].entities if o.id == back_e.get(c.id)), None) for c in new_e]
         for so, c in zip(srcs, news):
-            t = next((t for t in tops if t['obj'] is so), None)
+            t = next((t for t in tops if t['obj'] is so), None) if so is not None else None
             if t is None:
                 nest_flag.append('collapse_one produced an object whose source is not a tracked top-level object')
                 continue
@@ -902,7 +1151,7 @@ def gen_world_case(rng: random.Random, n_ev: int):
             t['obj'].hidden = False
             t['obj'].vis_shown = True
         desc.append(('hide', tops.index(t), b))
-        tev.append(f'THide {tops.index(t) + 3}%nat {"true" if b else "false"}')
+        tev.append(f'THide {tops.index(t)}%nat {"true" if b else "false"}')
 
     for _ in range(n_ev):
         if rng.random() < 0.25:
@@ -961,7 +1210,7 @@ def gen_world_case(rng: random.Random, n_ev: int):
                 maps[dest].add_brush(c)
             tops.append(nt)
             desc.append(('copy', tops.index(t), dest, d, explicit))
-            tev.append(f'TCopy {tops.index(t) + 3}%nat {dest}%nat {_zs(d)} {"true" if explicit else "false"}')
+            tev.append(f'TCopy {tops.index(t)}%nat {dest}%nat {_zs(d)} {"true" if explicit else "false"}')
             c = csolids = cs = cf = None
         elif r < 0.68:
             t = rng.choice(live)
@@ -974,7 +1223,7 @@ def gen_world_case(rng: random.Random, n_ev: int):
                     ev[kind].append(f'WRemove {i}%nat')
                     tr[kind][i].inmap = False
             desc.append(('remove', tops.index(t)))
-            tev.append(f'TRemove {tops.index(t) + 3}%nat')
+            tev.append(f'TRemove {tops.index(t)}%nat')
         elif r < 0.80:
             t = rng.choice(live)
             if t['inmap']:
@@ -989,7 +1238,7 @@ def gen_world_case(rng: random.Random, n_ev: int):
                     ev[kind].append(f'WReAdd {i}%nat')
                     tr[kind][i].inmap = True
             desc.append(('readd', tops.index(t)))
-            tev.append(f'TReAdd {tops.index(t) + 3}%nat')
+            tev.append(f'TReAdd {tops.index(t)}%nat')
         else:
             t = rng.choice(live)
             if t['inmap']:
@@ -1015,7 +1264,7 @@ def gen_world_case(rng: random.Random, n_ev: int):
                         desc.append(('still-referenced', kind, i))
                         nest_ok = False         # a part outlived its owner: not an event of the nested model
             desc.append(('destroy', tops.index(t)))
-            tev.append(f'TDestroy {tops.index(t) + 3}%nat')
+            tev.append(f'TDestroy {tops.index(t)}%nat')
         t = None
     exp = {}
     scans = [scan_map(v) for v in maps]
@@ -1034,24 +1283,37 @@ def gen_world_case(rng: random.Random, n_ev: int):
     order: list[int] = []
     for v in maps:
         for lst, mark in ((v.brushes, -1), (v.entities, -2)):
-            order += [next((i + 3 for i, t in enumerate(tops) if t['obj'] is o), -7) for o in lst] + [mark]
+            order += [next((i for i, t in enumerate(tops) if t['obj'] is o), -7) for o in lst] + [mark]
     exp['T_order'] = order
+    exp['T_timing'] = timing
     return ev, exp, desc, scans
 
 
-def corr_world(ck: Ck) -> None:
+def corr_world(ck: Ck, parse_prog: list[str] | None = None) -> None:
     """SM/IdWorld.v against real histories over three maps (entities, brushes, faces; copy within and across maps)."""
     from harness.common import parse_coq_N_list
     n = ck.budget(120, 1500)
     cases = []
     nested = []
+    flagged: list = []
+    timing_bad: list = []
+    n_timing = 0
+    gc_begin()
     for i in range(n):
-        ev, exp, desc, scans = gen_world_case(ck.rng, ck.rng.choice([4, 8, 14, 22]))
+        ev, exp, desc, scans = gen_world_case(ck.rng, ck.rng.choice([4, 8, 14, 22]), parse_prog)
         ck.count('world_histories')
         for d in desc:
             ck.hist('world_events', d[0])
-        if any(d[0] == 'collapse' or (d[0] in ('copy', 'gcopy') and d[4]) for d in desc):
+        ck.hist('world_maps_parsed', sum(d[0] == 'parse' for d in desc))
+        if any(d[0] in ('collapse', 'parse') or (d[0] in ('copy', 'gcopy') and d[4]) for d in desc):
             ck.seen(('world', tuple(desc)))
+        if exp['T_flag']:
+            flagged.append((exp['T_flag'], desc))
+        for obs, exp_t, text in exp['T_timing']:
+            n_timing += 1
+            ck.hist('parse_placeholder_dead(at world, at first entity, after parse)', str(obs))
+            if obs != exp_t:
+                timing_bad.append({'observed': obs, 'program_says': exp_t, 'vmf_text': text})
         for m, sc in enumerate(scans):
             for kind, what, vals in dup_report(sc):
                 if kind == 'ent':       # scan_map leaves the worldspawn out on purpose; here only listed entities count
@@ -1061,9 +1323,18 @@ def corr_world(ck: Ck) -> None:
                               'how': 'events are in the notation of SM/IdWorld.v; replay by the same calls on three VMF() objects'})
         for kind in WORLD_KINDS:
             cases.append((kind, ev[kind], exp[kind], desc))
-        if ev['T'] is not None:
+        if ev['T'] is not None and not exp['T_flag']:
             nested.append((ev['T'], [exp[k] for k in ('KEnt', 'KSolid', 'KFace')] + [exp['T_order']], desc))
             ck.count('nested_histories')
+    gc_end()
+    if parse_prog is not None:
+        ck.obligation('correspondence:parse-destructor-time', not timing_bad,
+                      f'{n_timing} maps built by VMF.parse inside the three-map histories: the placeholder worldspawn is (not) destroyed when the world block / '
+                      'the first entity block is constructed and after parse returns, observed through weak references with a full gc.collect() at every '
+                      f'step boundary, vs the position of the re-binding of <map>.spawn in the program read from VMF.parse: {len(timing_bad)} disagreements')
+        if timing_bad:
+            ck.tie_broken.append('time of the placeholder worldspawn\'s destructor in VMF.parse (program read from the source vs CPython)')
+            ck.extra['parse_timing_disagreement'] = timing_bad[0]
     nk = len(WORLD_KINDS)
     ck.sample({'world_history': cases[-nk][3], 'events_per_kind': {c[0]: c[1] for c in cases[-nk:]},
                'impl(id,alive,inmap,home)*_then_next_ids': {c[0]: c[2] for c in cases[-nk:]}})
@@ -1097,9 +1368,14 @@ def corr_world(ck: Ck) -> None:
     if nested:
         ck.sample({'nested_events': nested[-1][0], 'impl_per_kind(id,alive,inmap,home)*_then_next_ids': nested[-1][1]})
     bad = [c * 150 + i for c, idxs in enumerate(res[n_world:]) for i in idxs]
-    ck.obligation('correspondence:nested', not bad,
-                  f'{len(nested)} histories of bundled events on entities / brush entities / world brushes over three maps incl. the real collapse_one, '
-                  f'model trun (parts, order, desired IDs, the brush/entity lists of every map and the objects collapse_one copies decided by the model) vs the implementation: {len(bad)} disagreements')
+    ck.obligation('correspondence:nested', not bad and not flagged,
+                  f'{len(nested)} histories of bundled events on entities / brush entities / world brushes over three maps incl. VMF.parse as an event '
+                  '(the program read from the source run on the document) and the real collapse_one, '
+                  f'model trun (parts, order, desired IDs, the brush/entity lists of every map and the objects collapse_one copies decided by the model) vs the implementation: {len(bad)} disagreements'
+                  + (f', {len(flagged)} histories in which the implementation built objects the model does not know' if flagged else ''))
+    if flagged and not bad:
+        ck.tie_broken.append('correspondence nested objects: ' + flagged[0][0][0])
+        ck.extra['nested_disagreement'] = {'flag': flagged[0][0], 'history': flagged[0][1]}
     if bad:
         c = min((nested[i] for i in bad), key=lambda c: len(c[0]))
         ck.tie_broken.append('correspondence nested objects (SM/IdNest.v trun vs Entity/Solid/Side constructors, copy(), remove, __del__)')
@@ -1456,8 +1732,9 @@ Definition nlive (es : list nev) : list Z := nids (nents (nrun node_realloc_on_a
 _ID_POOL = [None, None, -1, 0, -2, 1, 1, 2, 2, 3, 4, 7]
 
 
-def gen_vmf_doc(rng: random.Random):
-    """VMF text whose IDs collide, are missing, zero or negative, plus the desired IDs per kind in construction order."""
+def gen_vmf_doc(rng: random.Random, small: bool = False):
+    """VMF text whose IDs collide, are missing, zero or negative, plus the desired IDs per kind in construction order.
+    `small`: fewer objects (the document is the start of a longer history)."""
     want = {'KEnt': [], 'KSolid': [], 'KFace': [], 'KGroup': [], 'KVis': [], 'node': []}
     out: list[str] = ['versioninfo\n{\n"formatversion" "100"\n}\n']
 
@@ -1490,7 +1767,7 @@ def gen_vmf_doc(rng: random.Random):
         return txt + '}\n'
 
     out.append('visgroups\n{\n' + ''.join(visgroup(0) for _ in range(rng.choice([0, 1, 3]))) + '}\n')
-    wd = pick()
+    wd = 1 if rng.random() < 0.5 else pick()        # Hammer always writes the world block with id 1
     world = 'world\n{\n' + idline('id', wd) + '"classname" "worldspawn"\n'
     for _ in range(rng.choice([0, 1, 3])):
         if rng.random() < 0.25:
@@ -1503,7 +1780,7 @@ def gen_vmf_doc(rng: random.Random):
         want['KGroup'].append(des(gd))
     out.append(world + '}\n')
     ents = []
-    for _ in range(rng.choice([0, 2, 4, 7])):
+    for _ in range(rng.choice([0, 1, 2] if small else [0, 2, 4, 7])):
         ed = pick()
         # Entity.parse reads the id only when it is numeric: '-1'/'-2' stay ordinary keyvalues
         txt = 'entity\n{\n' + idline('id', ed)
@@ -1568,6 +1845,22 @@ def corr_parse(ck: Ck) -> None:
         nodes = [int(e['nodeid']) for e in vmf.entities if 'nodeid' in e]
         nev = ['NCreate ' + ('None' if d is None else f'(Some {_zs(d)})') for d in want['node']]
         cases.append(('node', nev, nodes, text))
+        # parse-then-allocate: every kind of object gets one more member after the parse (fresh IDs), then the scan again
+        from srctools.math import Vec
+        from srctools.vmf import EntityGroup, VisGroup
+        extra = [vmf.create_ent('info_null'), vmf.create_ent('info_node', nodeid='-1'), vmf.make_prism(Vec(0, 0, 0), Vec(8, 8, 8)).solid]
+        vmf.add_brush(extra[2])
+        vmf.add_ent(vmf.spawn.copy())
+        if vmf.entities:
+            vmf.add_ent(vmf.entities[0].copy())
+        vmf.vis_tree.append(VisGroup(vmf, 'new'))
+        g_new = EntityGroup(vmf)
+        vmf.groups[g_new.id] = g_new
+        gc_step()
+        for kind, what, vals in dup_report(scan_map(vmf)):
+            ck.violation(f'parse-then-allocate-{kind}-id-{what}', f'VMF.parse, then one new object of every kind: {kind} IDs {what}: {vals}',
+                         {'vmf_text': text, 'how': 'VMF.parse(text); create_ent x2, make_prism + add_brush, spawn.copy(), entities[0].copy(), VisGroup, EntityGroup; scan incl. the worldspawn'})
+        del extra, g_new
     ck.sample({'parsed_vmf_text': cases[-1][3][:600], 'desired_and_resulting_ids': {c[0]: (c[1], c[2]) for c in cases[-6:]}})
     bad = []
     wcases = [c for c in cases if c[0] != 'node']
@@ -1646,13 +1939,14 @@ def run(ck: Ck) -> None:
             'node_id_not_released_on_remove': 'negb node_release_on_remove',
             'every_keyvalue_write_goes_through_node_registration': 'keys_writes_registered',
             'every_fixup_table_write_is_a_modelled_operation': 'fixup_writes_modelled',
+            'vmf_parse_releases_no_id_itself': 'parse_releases_nothing',
             'no_unclassified_release_site': 'forallb (fun x : kind * site * String.string => match snd (fst x) with SOther => false | _ => true end) release_sites',
         })
         corr_idman(ck)
         corr_fixups(ck, bool(side.get('fixup_init_requires_positive')), bool(side.get('fixup_init_defers', True)))
         ror = any(r[0] == 'KEnt' and r[1] != 'SDel' for r in side.get('releases', []))
         corr_lifecycle(ck, ror)
-        corr_world(ck)
+        corr_world(ck, [r[0] for r in side.get('parse_program', [])] or None)
         corr_nodes(ck)
         corr_parse(ck)
     search_lifecycle(ck)
@@ -1691,8 +1985,15 @@ def run(ck: Ck) -> None:
     if has('idman-'):
         ck.explain('instance:idman_hint_lowered_only_by_positive_ids')
         ck.explain('correspondence:idman')
-    if has('parse-'):
+    if has('parse-') or has('-after-parse'):
         ck.explain('correspondence:parse')
+        ck.explain('correspondence:parse-destructor-time')
+        ck.explain('instance:vmf_parse_releases_no_id_itself')
+    # a release site the census could not classify is explained by a concrete duplicate of the kind it releases
+    names = {'KEnt': 'ent', 'KSolid': 'solid', 'KFace': 'face', 'KGroup': 'group', 'KVis': 'vis', 'KNode': 'node'}
+    other = {names.get(r[0], '?') for r in side.get('releases', []) if r[1] == 'SOther'}
+    if other and all(has(k + '-id-duplicate') for k in other):
+        ck.explain('instance:no_unclassified_release_site')
     if not ok_t and keys:
         # the translator failed closed on a shape it cannot classify, and the search exhibits a concrete duplicate / non-positive
         # ID on the same tree: the replay is the failing input of this alarm
